@@ -3,7 +3,7 @@ CONSTANTS
   MaxStmts = 30
   MaxDepth = 5
   MaxUnits = 3
-  MaxVar = 9
+  MaxVar = 30
   UnitKinds <- AllUnits
   ConKinds <- AllCons
   SpecKinds <- AllSpec
